@@ -233,6 +233,8 @@ class Scenario:
             s.host = cfg["peers"][0]["name"]
             if var == "nocommon":
                 return env.cer(host=s.host, acct=(99,), auth=(98,), hbh=hbh, e2e=e2e)
+            if var == "crosskind":      # the node's auth ids offered as acct ids and vice versa: nothing is shared
+                return env.cer(host=s.host, acct=napps_auth + (97,), auth=napps_acct + (96,), hbh=hbh, e2e=e2e)
             if var == "relay":
                 return env.cer(host=s.host, acct=(), auth=(0xffffffff,), hbh=hbh, e2e=e2e)
             if var == "nohost":
